@@ -347,6 +347,7 @@ func runC19(r *Run) {
 			}
 		}
 		r.need(idx != nil, "New locates the wildcard with strings.Index(entry, literal containing '*')")
+		f = idx.Parent() // New itself, or the helper the parse loop was moved into
 		star := strings.IndexByte(lit, '*')
 		noStar := lit[:star] + lit[star+1:]
 		if !(star+1 < len(lit) && lit[star+1] == '.') {
